@@ -144,6 +144,20 @@ func checkString(c strCase) (h.Info, error) {
 	if uerr := p.UnmarshalText([]byte(s)); uerr != nil || !equal(p, want) {
 		return info, fmt.Errorf("UnmarshalText(%q) = %v,%v; reference %v", s, []uint32(p), uerr, want)
 	}
+	// receivers that already hold a path: longer, shorter, empty with spare capacity, and one receiver that
+	// lives across cases (so it sees long, short and long results in turn); the old content must be gone
+	for i, r := range []bip32path.Path{make(bip32path.Path, len(want)+3), make(bip32path.Path, 1, len(want)+5), make(bip32path.Path, 0, 64), sharedReceiver} {
+		for j := range r {
+			r[j] = 0xdeadbeef
+		}
+		before := len(r)
+		if uerr := r.UnmarshalText([]byte(s)); uerr != nil || !equal(r, want) {
+			return info, fmt.Errorf("UnmarshalText(%q) into a receiver that already held %d components (capacity %d, receiver kind %d) = %v,%v; reference %v", s, before, cap(r)+0, i, []uint32(r), uerr, want)
+		}
+		if i == 3 {
+			sharedReceiver = r
+		}
+	}
 	// an accepted string's value prints and parses back to the same value
 	back, err := bip32path.ParsePath(got.String())
 	if err != nil || !equal(back, want) {
@@ -151,6 +165,9 @@ func checkString(c strCase) (h.Info, error) {
 	}
 	return info, nil
 }
+
+// a receiver of UnmarshalText that is reused from case to case
+var sharedReceiver bip32path.Path
 
 func equal(a bip32path.Path, b []uint32) bool {
 	if len(a) != len(b) {
